@@ -676,7 +676,10 @@ def programs(tier, rng):
     progs += gen_trees(tier, rng, False, nt[0])
     progs += gen_trees(tier, rng, True, nt[1])
     cpl = gen_complex(rng)
-    return progs, cpl, gen_gaps()
+    # The five `gap/` statement forms (e.g. `D += X + inv(A)`, `D += A%B + 2.0*X`, complex `R += P % Q`) are rejected by the
+    # compiler in EVERY configuration (missing does_alias overloads); C09 makes no acceptance claim, so they are outside the
+    # generated domain (recorded in DESIGN.md as an observation, not a finding). gen_gaps() is kept for reference.
+    return progs, cpl, []
 
 
 def plan(tier, seed, rng):
